@@ -7,6 +7,8 @@
 (*   c.visits  recorded calls  [meth, plan, unit, item, role, mode, targets]  in call order;       *)
 (*             unit = item name, or the file id in file-graph mode                                *)
 (*   c.raised  exception text if process() failed ("" otherwise)                                  *)
+(*   c.payload FALSE for the hand-written order expectations of the repository tests, which do    *)
+(*             not state role / mode / targets: only selection and order are checked then         *)
 (* The sequence must be a behaviour of SchedProcess (any topological order of the selected units  *)
 (* is accepted) that ends in Done; role / mode / targets must equal the specification's.          *)
 EXTENDS SchedProject, Json, IOUtils
@@ -61,7 +63,7 @@ Verdict(c) ==
   ELSE LET g == GraphOf(c)
            m == ManOf(c)
            w == Walk(g, m, c.visits, 1, {})
-       IN IF w[1] # "ok" THEN w ELSE Payload(c, g, m)
+       IN IF w[1] # "ok" THEN w ELSE IF c.payload THEN Payload(c, g, m) ELSE <<"ok", 0>>
 
 Init_ == tid = 1 /\ G = <<>> /\ M = <<>> /\ vseq = <<>>
 Next_ ==
